@@ -8,6 +8,8 @@ def run(ctx, prog, facts, tier):
     sqs = None if tier != 'quick' else sorted(set(QUICK_SQUARES + [n for t in G.TRAPS for n in G.neighbours(t)]))
     mvs = rules_c02.moves(True, sqs)
     rules_c02.check_preview(ctx, prog, I, mvs)
+    from . import rules_local
+    rules_local.check_preview_tables(ctx, prog, I)
     rules_c02.check_capture_footprint(ctx, prog, I)
     rules_c02.check_take_action_composition(ctx, prog, I, mvs[::4])
     ctx.floor('C13 preview modes', len(mvs), 60)
